@@ -510,4 +510,295 @@ theorem closed_rounds {s : St} (h : Inv s) (hc : s.closed = true) (he : s.inbox 
   · rw [hd, hid, St.slot_eq]
 
 
+/-! ## responsive server: every live future completes with its own reply (C05 `all_complete`) -/
+
+/-- responsive server, clean transport — on the components of the state that matter.
+`tag k` is the payload of the reply to request `k`; the futures selected by `F` are still live or
+have resolved with their reply. -/
+structure CleanP (F : Fid → Prop) (tag : Nat → Nat) (closed : Bool) (inbox : List Msg)
+    (slots : List (Nat × Slot)) (futs : List Fut) : Prop where
+  open_ : closed = false
+  inboxOk : ∀ m ∈ inbox, m.p2 = true ∧ ∃ k, m.id = some k ∧ findSlot slots k = some .pending ∧ m.tag = tag k
+  inboxNodup : (inbox.map (·.id)).Nodup
+  liveOk : ∀ g fu, findFut futs g = some fu → fu.isLive = true →
+    (∃ m, findSlot slots fu.id = some (.ready m) ∧ m.p2 = true ∧ m.tag = tag fu.id) ∨ (∃ m ∈ inbox, m.id = some fu.id)
+  target : ∀ g fu, findFut futs g = some fu → F g → fu.isLive = true ∨ fu.pc = .done (.ok (tag fu.id))
+
+abbrev CleanC (F : Fid → Prop) (tag : Nat → Nat) (s : St) : Prop := CleanP F tag s.closed s.inbox s.slots s.futs
+
+/-- the potential that fair rounds decrease -/
+abbrev potential (s : St) : Nat := s.inbox.length + liveCount s.futs
+
+variable {F : Fid → Prop} {tag : Nat → Nat} {closed : Bool} {inbox : List Msg} {slots : List (Nat × Slot)} {futs : List Fut}
+
+theorem cleanP_park {m : Msg} {rest : List Msg} {mid : Nat} (h : CleanP F tag closed (m :: rest) slots futs)
+    (hm : m.id = some mid) : CleanP F tag closed rest (setSlot mid (.ready m) slots) futs := by
+  obtain ⟨h1, h2, h3, h4, h5⟩ := h
+  have hm0 := h2 m (by simp)
+  simp only [List.map_cons, List.nodup_cons, List.mem_map, not_exists, not_and] at h3
+  refine ⟨h1, ?_, h3.2, ?_, h5⟩
+  · intro m1 hm1
+    obtain ⟨hp, k, hk, hs, ht⟩ := h2 m1 (by simp [hm1])
+    refine ⟨hp, k, hk, ?_, ht⟩
+    have : k ≠ mid := by
+      intro he; subst he
+      exact h3.1 m1 hm1 (by rw [hk, hm])
+    rw [findSlot_setSlot, if_neg this]; exact hs
+  · intro g fu hf hl
+    obtain ⟨hp, k, hk, hs, ht⟩ := hm0
+    rw [hm] at hk; cases hk
+    by_cases hid : fu.id = mid
+    · left
+      refine ⟨m, ?_, hp, by rw [hid]; exact ht⟩
+      rw [findSlot_setSlot, hid, if_pos rfl, hs]; rfl
+    · rcases h4 g fu hf hl with ⟨m', hs', hp', ht'⟩ | ⟨m', hm', hid'⟩
+      · left; refine ⟨m', ?_, hp', ht'⟩
+        rw [findSlot_setSlot, if_neg hid]; exact hs'
+      · right
+        simp only [List.mem_cons] at hm'
+        rcases hm' with rfl | hm'
+        · rw [hm] at hid'; exact absurd (Option.some.inj hid').symm hid
+        · exact ⟨m', hm', hid'⟩
+
+theorem cleanP_setPc_live {f : Fid} {fu : Fut} {pc : Pc} (h : CleanP F tag closed inbox slots futs)
+    (hf : findFut futs f = some fu) (hl : fu.isLive = true) (hpc : ({ fu with pc := pc } : Fut).isLive = true) :
+    CleanP F tag closed inbox slots (setPc f pc futs) := by
+  obtain ⟨h1, h2, h3, h4, h5⟩ := h
+  refine ⟨h1, h2, h3, ?_, ?_⟩
+  · simp only [findFut_setPc_some]
+    rintro g fu' (⟨rfl, a, ha, rfl⟩ | ⟨hg, hf'⟩) hl'
+    · rw [hf] at ha; cases ha; exact h4 g fu hf hl
+    · exact h4 g fu' hf' hl'
+  · simp only [findFut_setPc_some]
+    rintro g fu' (⟨rfl, a, ha, rfl⟩ | ⟨hg, hf'⟩) hF
+    · rw [hf] at ha; cases ha; exact .inl hpc
+    · exact h5 g fu' hf' hF
+
+theorem cleanP_complete {f : Fid} {fu : Fut} {m : Msg} (h : CleanP F tag closed inbox slots futs)
+    (hinj : ∀ g fu', findFut futs g = some fu' → fu'.id = fu.id → g = f)
+    (hf : findFut futs f = some fu) (hl : fu.isLive = true) (hs : findSlot slots fu.id = some (.ready m)) :
+    (if m.p2 then Res.ok m.tag else Res.err) = .ok (tag fu.id) ∧
+    CleanP F tag closed inbox (setSlot fu.id .complete slots) (setPc f (.done (.ok (tag fu.id))) futs) := by
+  obtain ⟨h1, h2, h3, h4, h5⟩ := h
+  have hnot : ∀ m1 ∈ inbox, m1.id ≠ some fu.id := by
+    intro m1 hm1 he
+    obtain ⟨_, k, hk, hs', _⟩ := h2 m1 hm1
+    rw [he] at hk; cases hk
+    rw [hs] at hs'; cases hs'
+  constructor
+  · rcases h4 f fu hf hl with ⟨m', hs', hp', ht'⟩ | ⟨m', hm', hid'⟩
+    · rw [hs] at hs'; cases hs'
+      simp [hp', ht']
+    · exact absurd hid' (hnot m' hm')
+  · refine ⟨h1, ?_, h3, ?_, ?_⟩
+    · intro m1 hm1
+      obtain ⟨hp, k, hk, hs', ht⟩ := h2 m1 hm1
+      refine ⟨hp, k, hk, ?_, ht⟩
+      have : k ≠ fu.id := by intro he; subst he; exact hnot m1 hm1 hk
+      rw [findSlot_setSlot, if_neg this]; exact hs'
+    · simp only [findFut_setPc_some]
+      rintro g fu' (⟨rfl, a, ha, rfl⟩ | ⟨hg, hf'⟩) hl'
+      · simp [Fut.isLive] at hl'
+      · have hid : fu'.id ≠ fu.id := fun he => hg (hinj g fu' hf' he)
+        rcases h4 g fu' hf' hl' with ⟨m', hs', hp', ht'⟩ | h
+        · left; exact ⟨m', by rw [findSlot_setSlot, if_neg hid]; exact hs', hp', ht'⟩
+        · right; exact h
+    · simp only [findFut_setPc_some]
+      rintro g fu' (⟨rfl, a, ha, rfl⟩ | ⟨hg, hf'⟩) hF
+      · rw [hf] at ha; cases ha; right; rfl
+      · exact h5 g fu' hf' hF
+
+
+theorem cleanP_live_slot {g : Fid} {fu : Fut} (h : CleanP F tag closed inbox slots futs)
+    (hf : findFut futs g = some fu) (hl : fu.isLive = true) :
+    (∃ m, findSlot slots fu.id = some (.ready m)) ∨
+      (findSlot slots fu.id = some .pending ∧ ∃ m ∈ inbox, m.id = some fu.id) := by
+  rcases h.liveOk g fu hf hl with ⟨m, hs, _⟩ | ⟨m, hm, hid⟩
+  · exact .inl ⟨m, hs⟩
+  · obtain ⟨_, k, hk, hs, _⟩ := h.inboxOk m hm
+    rw [hid] at hk; cases hk
+    exact .inr ⟨hs, m, hm, hid⟩
+
+theorem hold_again {s : St} {f : Fid} {m : Msg} {rest : List Msg} {mid : Nat} (h : Hold s f)
+    (hi : s.inbox = m :: rest) (hm : m.id = some mid) :
+    Hold { s with inbox := rest, slots := setSlot mid (.ready m) s.slots, rxOwner := some f } f := by
+  have ho : s.rxOwner = some f := (h.2.holdOk f rfl).1
+  have e : ({ s with inbox := rest, slots := setSlot mid (.ready m) s.slots, rxOwner := some f } : St)
+      = { ({ s with inbox := rest } : St) with slots := setSlot mid (.ready m) s.slots } := by
+    cases s; simp only [St.mk.injEq, true_and, and_true] at ho ⊢; exact ho.symm
+  rw [e]
+  exact hold_park (hold_inbox h hi) (h.1.inboxDel m (by simp [hi])) hm
+
+theorem clean_run {s : St} {f : Fid} {fu : Fut} {b : Bool}
+    (h : Hold s f) (hc : CleanC F tag s) (hf : findFut s.futs f = some fu) (hl : fu.isLive = true)
+    (hb : b = true → findSlot s.slots fu.id = some .pending) :
+    CleanC F tag (St.runHolding (s.inbox.length + 2) s f fu.id b) ∧
+      potential (St.runHolding (s.inbox.length + 2) s f fu.id b) < potential s := by
+  refine runHolding_ind
+    (P := fun s' b' => Hold s' f ∧ CleanC F tag s' ∧ findFut s'.futs f = some fu ∧
+      (b' = true → findSlot s'.slots fu.id = some .pending) ∧ potential s' ≤ potential s)
+    (Q := fun s' => CleanC F tag s' ∧ potential s' < potential s) f fu.id ?_ _ s b
+    ⟨h, hc, hf, hb, Nat.le_refl _⟩ (by omega)
+  clear h hc hf hb
+  intro s' b' ⟨h, hc, hf, hb, hM⟩
+  have hls := cleanP_live_slot hc hf hl
+  have hpend : (b' = true ∨ findSlot s'.slots fu.id = some .pending) → findSlot s'.slots fu.id = some .pending := by
+    rintro (h' | h'); exact hb h'; exact h'
+  have hne : findSlot s'.slots fu.id = some .pending → ∃ m ∈ s'.inbox, m.id = some fu.id := by
+    intro hp
+    rcases hls with ⟨m, hs⟩ | ⟨_, h2⟩
+    · rw [hp] at hs; cases hs
+    · exact h2
+  apply iter_elim (motive := Iter.Post _ _) s' f fu.id b' h.1.las <;> simp only [Iter.Post]
+  · -- own slot gone
+    intro _ hs
+    rcases hls with ⟨m, hs'⟩ | ⟨hs', _⟩ <;> rcases hs with hs | hs <;> rw [hs] at hs' <;> cases hs'
+  · -- own slot ready
+    intro m _ hs
+    obtain ⟨hr, hc'⟩ := cleanP_complete hc (fun g fu' hg he => h.1.id_inj hg hf he) hf hl hs
+    rw [hr]
+    simp only [St.finish, releaseRx_eq, St.withPc]
+    refine ⟨hc', ?_⟩
+    have := liveCount_done (.ok (tag fu.id)) hf hl
+    simp only [potential] at hM ⊢
+    omega
+  · intro _ _ hcl; rw [hc.open_] at hcl; cases hcl
+  · intro hr hi _
+    obtain ⟨m, hm, _⟩ := hne (hpend hr)
+    rw [hi] at hm; cases hm
+  · intro m rest _ hi hm
+    obtain ⟨_, k, hk, _⟩ := hc.inboxOk m (by simp [hi])
+    rw [hm] at hk; cases hk
+  · intro m rest mid _ hi hm hs
+    obtain ⟨_, k, hk, hs', _⟩ := hc.inboxOk m (by simp [hi])
+    rw [hm] at hk; cases hk
+    exact absurd hs' hs
+  · -- park, lock handed on: queue again
+    intro m rest mid _ hi hm _ _
+    have hc1 : CleanP F tag s'.closed (m :: rest) s'.slots s'.futs := hi ▸ hc
+    simp only [releaseRx_eq, St.withPc]
+    refine ⟨cleanP_setPc_live (cleanP_park hc1 hm) hf hl (by simp [Fut.isLive]), ?_⟩
+    simp only [potential] at hM ⊢
+    rw [liveCount_keep hf hl (by simp [Fut.isLive])]
+    rw [hi] at hM; simp only [List.length_cons] at hM
+    omega
+  · -- park, nobody waits: round the loop
+    intro m rest mid _ hi hm _ _
+    have hc1 : CleanP F tag s'.closed (m :: rest) s'.slots s'.futs := hi ▸ hc
+    refine ⟨⟨hold_again h hi hm, cleanP_park hc1 hm, hf, by simp, ?_⟩, by simp [hi]⟩
+    simp only [potential] at hM ⊢
+    rw [hi] at hM; simp only [List.length_cons] at hM
+    omega
+
+
+theorem clean_poll {s : St} (f : Fid) (h : Inv s) (hc : CleanC F tag s) :
+    CleanC F tag (s.poll f) ∧ potential (s.poll f) ≤ potential s ∧
+      (Runs s f → potential (s.poll f) < potential s) := by
+  apply poll_cases (motive := fun s' => CleanC F tag s' ∧ potential s' ≤ potential s ∧
+      (Runs s f → potential s' < potential s)) s f h
+  · intro hn; exact ⟨hc, Nat.le_refl _, fun hr => absurd hr hn⟩
+  · intro fu hf hpc hn
+    have hl : fu.isLive = true := by simp [Fut.isLive, hpc]
+    refine ⟨cleanP_setPc_live hc hf hl (by simp [Fut.isLive]), ?_, fun hr => absurd hr hn⟩
+    simp only [potential, St.withPc]
+    rw [liveCount_keep hf hl (by simp [Fut.isLive])]; exact Nat.le_refl _
+  · intro fu b hf hl hr hh hb
+    have hc1 : CleanC F tag { s with rxOwner := some f } := hc
+    have := clean_run hh hc1 hf hl hb
+    exact ⟨this.1, Nat.le_of_lt this.2, fun _ => this.2⟩
+
+theorem clean_drain (F : Fid → Prop) (tag : Nat → Nat) : Drain (CleanC F tag) potential where
+  pres _ f h hc := (clean_poll f h hc).1
+  le _ f h hc := (clean_poll f h hc).2.1
+  lt _ f fu h hc hf hl ho := (clean_poll f h hc).2.2 ⟨fu, hf, hl, ho⟩
+
+/-- the reply that is available for request `id`: parked in its slot, or still on the transport -/
+def St.reply (s : St) (id : Nat) : Option Msg :=
+  match s.slot id with
+  | some (.ready m) => some m
+  | _ => s.inbox.find? (·.id == some id)
+
+/-- **responsive server, clean transport** (hypothesis of `all_complete`): the transport is open; every
+message on it passes both parse phases, answers a pending request, and no two answer the same
+request; the reply to every live future is parked (and passes phase 2) or on the transport. -/
+def Clean (s : St) : Prop :=
+  s.closed = false ∧
+  (∀ m ∈ s.inbox, m.p2 = true ∧ m.id.bind s.slot = some .pending) ∧
+  (s.inbox.map (·.id)).Nodup ∧
+  (∀ fu ∈ s.live, (s.reply fu.id).map (·.p2) = some true)
+
+instance (s : St) : Decidable (Clean s) := by unfold Clean; infer_instance
+
+/-- the payload a live future is going to resolve with -/
+def St.replyTag (s : St) (id : Nat) : Nat := ((s.reply id).map (·.tag)).getD 0
+
+
+theorem find?_of_nodup_map {α β} [BEq β] [LawfulBEq β] (f : α → β) {l : List α} (h : (l.map f).Nodup) {a : α} (ha : a ∈ l) :
+    l.find? (fun x => f x == f a) = some a := by
+  cases hfind : l.find? (fun x => f x == f a) with
+  | none =>
+    rw [List.find?_eq_none] at hfind
+    exact absurd (by simp) (hfind a ha)
+  | some b =>
+    have hb := List.mem_of_find?_eq_some hfind
+    have he := List.find?_some hfind
+    simp only [beq_iff_eq] at he
+    rw [eq_of_map_nodup f h hb ha he]
+
+theorem cleanC_of_clean {s : St} (hc : Clean s) :
+    CleanC (fun g => ∃ fu, findFut s.futs g = some fu ∧ fu.isLive = true) s.replyTag s := by
+  obtain ⟨h1, h2, h3, h4⟩ := hc
+  have hreply : ∀ m ∈ s.inbox, ∀ k, m.id = some k → findSlot s.slots k = some .pending → s.reply k = some m := by
+    intro m hm k hk hs
+    simp only [St.reply, St.slot_eq, hs]
+    rw [← hk]
+    exact find?_of_nodup_map (·.id) h3 hm
+  refine ⟨h1, ?_, h3, ?_, ?_⟩
+  · intro m hm
+    obtain ⟨hp, hb⟩ := h2 m hm
+    refine ⟨hp, ?_⟩
+    cases hk : m.id with
+    | none => simp [hk] at hb
+    | some k =>
+      simp only [hk, Option.bind_some, St.slot_eq] at hb
+      exact ⟨k, rfl, hb, by simp [St.replyTag, hreply m hm k hk hb]⟩
+  · intro g fu hf hl
+    have hm : fu ∈ s.live := by rw [St.live_eq, List.mem_filter]; exact ⟨findFut_mem hf, hl⟩
+    have := h4 fu hm
+    simp only [Option.map_eq_some_iff] at this
+    obtain ⟨m, hr, hp⟩ := this
+    simp only [St.reply, St.slot_eq] at hr
+    split at hr
+    · rename_i m' hs
+      cases hr
+      exact .inl ⟨m, hs, hp, by simp [St.replyTag, St.reply, St.slot_eq, hs]⟩
+    · have hmem := List.mem_of_find?_eq_some hr
+      have he := List.find?_some hr
+      exact .inr ⟨m, hmem, by simpa using he⟩
+  · rintro g fu hf ⟨fu', hf', hl⟩
+    rw [hf] at hf'; cases hf'
+    exact .inl hl
+
+/-- under a responsive server, `inbox + live` fair rounds complete every live future with its reply -/
+theorem clean_rounds {s : St} (h : Inv s) (hc : Clean s) (n : Nat) (hn : s.inbox.length + s.live.length ≤ n) :
+    (St.rounds n s).live = [] ∧ ∀ f0 ∈ s.live, ∀ f ∈ (St.rounds n s).futs, f.fid = f0.fid →
+      f.id = f0.id ∧ ∃ m, s.reply f0.id = some m ∧ f.pc = .done (.ok m.tag) := by
+  obtain ⟨hi', hc', hl'⟩ := rounds_drain (clean_drain _ _) n s h (cleanC_of_clean hc) hn
+  refine ⟨hl', ?_⟩
+  intro f0 hf0 f hf hfid
+  have hrep := hc.2.2.2 f0 hf0
+  rw [St.live_eq, List.mem_filter] at hf0
+  have h0 := h.find hf0.1
+  have h1 := hi'.find hf
+  rw [hfid] at h1
+  have hid : f.id = f0.id := id_of_keys (rounds_keys n h) h.1.fidNodup h0 h1
+  refine ⟨hid, ?_⟩
+  simp only [Option.map_eq_some_iff] at hrep
+  obtain ⟨m, hr, _⟩ := hrep
+  refine ⟨m, hr, ?_⟩
+  rcases hc'.target f0.fid f h1 ⟨f0, h0, hf0.2⟩ with hl | hd
+  · rw [not_live_of_live_nil hl' hf] at hl; cases hl
+  · rw [hd, hid]; simp [St.replyTag, hr]
+
+
 end Session
